@@ -88,7 +88,7 @@ PROPS = {
     },
     "C04": {
         "props": "TrackVerif.GP.PropsC04",
-        "streams": [("GP", 2500, 40000)],
+        "streams": [("GP", 5000, 40000)],
         "clauses": ["gp.name_shape", "gp.validate", "gp.grouping", "gp.process", "gp.no_crash"],
         "rule": "PRNG(seed): 10% direct Match calls (documented names, near misses with one character replaced, mixed case, non-ASCII look-alikes), 10% FileSlice.Validate on "
                 "chapter lists with gaps/duplicates/odd starts, 10% argument lists, 70% whole Process runs on listings drawn from a name universe mixing both conventions, gaps, "
@@ -100,7 +100,7 @@ PROPS = {
     },
     "C05": {
         "props": "TrackVerif.GP.PropsC05",
-        "streams": [("GP", 2500, 40000)],
+        "streams": [("GP", 5000, 40000)],
         "clauses": ["gp.at_most_once", "gp.no_clobber", "gp.argv_shape", "gp.temp_gone", "gp.sources_intact", "gp.listed_are_outputs", "gp.input_slot", "gp.process", "gp.no_crash", "gp.osfs"],
         "rule": "as C04; every 25th case drives the processor's real os-backed filesystem adapter (hook VerifBaseFS) through random create/chtimes/stat/remove/createtemp/readdir sequences in a scratch directory and compares with the model filesystem the theorems assume; configs vary overwrite, skip lists, output dir in {'', '.', other}, five templates (incl. one constant name shared by all groups), five argument lists with -i \"\" at different "
                 "positions; pre-existing outputs; half of the runs inject one failing operation (stat, readdir, temp create, temp write, close, encoder run, chtimes) at a random position; "
@@ -172,7 +172,7 @@ PROPS = {
     },
     "C17": {
         "props": "TrackVerif.Geo.PropsC17",
-        "streams": [("GE", 3000, 60000)],
+        "streams": [("GE", 6000, 60000)],
         "clauses": ["ge.online_hit", "ge.online_miss", "ge.endpoint_order", "ge.tol_monotone", "ge.no_crash"],
         "rule": "PRNG(seed) tuples: line 1 m..1 km (log-uniform) at any bearing, |lat| < 84.9, any longitude, tolerance 1 cm..30 m (log-uniform), radius Earth/Moon/1 km/2x; position before, beside and "
                 "beyond the segment at 0..3 tolerances, one third placed at 0.97/0.985/1.02/1.03 x tolerance (just outside the guard band); each case evaluates OnLine for (a,b), (b,a) and 2x tolerance "
@@ -185,7 +185,7 @@ PROPS = {
     },
     "C18": {
         "props": "TrackVerif.Geo.PropsC18",
-        "streams": [("GE", 3000, 60000)],
+        "streams": [("GE", 6000, 60000)],
         "clauses": ["ge.distance", "ge.distance_symmetric", "ge.distance_linear", "ge.distance_zero", "ge.line_distance"],
         "rule": "position pairs 0.1 m..1000 km apart (log-uniform) at all bearings, |lat| < 89 (fast method: < 10 km, |lat| < 79), identical positions 1 in 30, several radii; each case also evaluates the "
                 "swapped pair and twice the radius; (segment, position) pairs as C17 with positions up to 300 m away for DistanceToLine; oracle = vector great-circle distance / distance to segment",
@@ -237,7 +237,7 @@ PROPS = {
     },
     "C19": {
         "props": "TrackVerif.Geo.PropsC19",
-        "streams": [("GE", 2400, 40000)],
+        "streams": [("GE", 5000, 40000)],
         "clauses": ["ge.sincosd", "ge.atan2d", "ge.meet", "ge.same_direction", "ge.horizon_nan", "ge.forward_nan", "ge.roundtrip_geo", "ge.reverse_nan", "ge.roundtrip_plane", "ge.on_both", "ge.crossing_mm", "ge.inside_ok", "ge.outside_err"],
         "rule": "plane algebra on random points (bit-exact); sameDirection near 0/90/180/360; Forward/Reverse round trips for centres anywhere and points 1 m..8900 km away (NaN expected beyond 10200 km); "
                 "segment pairs built by geodesic.Direct through a known crossing point C at crossing angles 5..175 deg, lengths 10 m..1000 km, C at 5..95% (inside) or outside each segment, not straddling "
@@ -250,7 +250,7 @@ PROPS = {
     },
     "C20": {
         "props": "TrackVerif.CLI.PropsC20",
-        "streams": [("CL", 150, 3000)],
+        "streams": [("CL", 220, 3000)],
         "clauses": ["cl.precedence", "cl.config_search", "cl.exit_status", "cl.silent_failure", "cl.spurious_failure", "cl.pipeline", "cl.gopro_pipeline", "cl.output_target", "cl.laptimes", "cl.no_crash", "cl.no_hang", "cl.model_vs_spec"],
         "rule": "the tracktools binary is built from /repo's working tree and run in a scratch directory with HOME redirected: commands convert / gopro convert / gopro laptimes / gopro render; every flag independently given or not "
                 "(incl. empty values and repeated --tags), config file explicit (--config), ./.tracktools.toml, $HOME/.tracktools.toml, both (cwd must win), none (embedded default) or an explicit file that does not exist; config content states "
